@@ -200,6 +200,53 @@ def ev_gdd(info, out):
     return []
 
 
+def ev_evaporation(info, out):
+    p = info["prof"]
+    if not (prof_ok(p) and in_bounds(p, info["th"]) and info.get("surf", 0) >= 0 and info.get("et0", 0) >= 0 and "malformed" not in " ".join(info.get("tags", []))):
+        return []
+    r = Rd(out[1:]); epot = r.f(); th1 = r.fl(); r.b(); r.f(); r.f(); surf1 = r.f(); r.f(); es = r.f(); espot = r.f()
+    res = []
+    lhs = sto(p["dz"], th1) + surf1 + es; rhs = sto(p["dz"], info["th"]) + info["surf"]
+    if abs(lhs - rhs) > TOL:
+        res.append(V("C01", "soil_evaporation", "balance", "storage' + ponding' + Es = %.9f but storage + ponding = %.9f (difference %.6g mm)" % (lhs, rhs, lhs - rhs)))
+    ranges_ok = info.get("kex", 0) >= 0 and 0 <= info.get("fwcc", 0) <= 100 and 0 <= info.get("ccxw", 0) <= 1 and 0 <= info.get("fmulch", 0) <= 1 \
+        and 0 <= info.get("mulchpct", 0) <= 100 and info.get("wetsurf", 0) >= 0
+    if ranges_ok and espot < -1e-12:
+        res.append(V("C04", "soil_evaporation", "espot_sign", "potential soil evaporation %.9g < 0 (canopy %.4f, adjusted %.4f)" % (espot, info.get("cc", 0), info.get("ccadj", 0))))
+    if espot >= 0 and (es < -TOL or es > espot + TOL):
+        res.append(V("C04", "soil_evaporation", "es_le_pot", "actual soil evaporation %.9g outside [0, potential %.9g]" % (es, espot)))
+    bad = oob(p, th1)
+    if bad:
+        res.append(V("C03", "soil_evaporation", "bounds", "water content outside [th_dry, th_s] after evaporation: compartment %d = %.9f" % bad[0]))
+    if surf1 < -TOL or surf1 > info["surf"] + TOL:
+        res.append(V("C03", "soil_evaporation", "ponding", "ponded water %.9g after evaporation (was %.9g)" % (surf1, info["surf"])))
+    return res
+
+
+def ev_transpiration(info, out):
+    p = info["prof"]; st = info.get("state", {})
+    if info.get("kind") == "malformed" or not (prof_ok(p) and "th" in st and in_bounds(p, st["th"]) and st.get("surface_storage", 0) >= 0):
+        return []
+    r = Rd(out[1:]); tr = r.f(); trpot_ns = r.f(); trpot = r.f(); irrnet = r.f()
+    r.f(); r.f(); r.f(); surf1 = r.f(); r.f(); r.fl(); th1 = r.fl()
+    res = []
+    lhs = sto(p["dz"], th1) + surf1 + tr; rhs = sto(p["dz"], st["th"]) + st["surface_storage"] + irrnet
+    if abs(lhs - rhs) > TOL:
+        res.append(V("C01", "transpiration", "balance", "storage' + ponding' + Tr = %.9f but storage + ponding + IrrNet = %.9f (difference %.6g mm)" % (lhs, rhs, lhs - rhs)))
+    if not info.get("gs") and (tr != 0 or trpot != 0):
+        res.append(V("C04", "transpiration", "off_season", "transpiration %.9g / potential %.9g outside the growing season" % (tr, trpot)))
+    if trpot >= 0 and (tr < -TOL or tr > trpot + TOL):
+        res.append(V("C04", "transpiration", "tr_le_pot", "actual transpiration %.9g outside [0, potential %.9g]" % (tr, trpot)))
+    if info.get("et0", 0) >= 0 and st.get("canopy_cover_adj", 0) >= 0 and info.get("gs") and trpot < -1e-9 and float(info.get("crop", {}).get("fage", 0)) * 0 == 0:
+        age = max(float(st.get("dap", 0)) - float(st.get("delayed_cds", 0)) - float(info.get("crop", {}).get("MaxCanopyCD", 0)), 0)
+        if (age - 5) * float(info.get("crop", {}).get("fage", 0)) / 100.0 <= float(info.get("crop", {}).get("Kcb", 1)):      # inside the domain of trpot_nonneg
+            res.append(V("C04", "transpiration", "trpot_sign", "potential transpiration %.9g < 0" % trpot))
+    bad = oob(p, th1)
+    if bad and float(info.get("crop", {}).get("LagAer", 3)) > 1:
+        res.append(V("C03", "transpiration", "bounds", "water content outside [th_dry, th_s] after transpiration: compartment %d = %.9f" % bad[0]))
+    return res
+
+
 def _dnum(sdate):
     import datetime
     y, m, d = [int(x) for x in sdate.split("/")]
@@ -278,6 +325,7 @@ EVAL = {
     "infiltration": ev_infiltration, "drainage": ev_drainage, "groundwater_inflow": ev_gw_inflow,
     "check_groundwater_table": ev_check_gw, "capillary_rise": ev_capillary, "rainfall_partition": ev_rainfall_partition,
     "growing_degree_day": ev_gdd, "schedule": ev_schedule, "gw": ev_gw_series, "fco2": ev_fco2,
+    "soil_evaporation": ev_evaporation, "transpiration": ev_transpiration,
 }
 
 
